@@ -78,7 +78,7 @@ func edgeCrossings(tris []vlib.Tri, lat [3][]float64, scale float64) map[edgeKey
 }
 
 func dualContour(r *vlib.Run) {
-	r.Section("dc", r.N(240, 2000), vlib.SectionOpts{SeedGlobalRand: false}, func(c *vlib.Case) {
+	r.Section("dc", r.N(240, 8000), vlib.SectionOpts{SeedGlobalRand: false}, func(c *vlib.Case) {
 		rng := c.Rng
 		var s *fsolid
 		delta := 0.06 + 0.1*rng.Float64()
@@ -227,7 +227,7 @@ func dualContour(r *vlib.Run) {
 
 // estimator checks SolidSurfaceEstimator.Bisect/BisectInterior directly.
 func estimator(r *vlib.Run) {
-	r.Section("estimator", r.N(6000, 60000), vlib.SectionOpts{}, func(c *vlib.Case) {
+	r.Section("estimator", r.N(6000, 200000), vlib.SectionOpts{}, func(c *vlib.Case) {
 		rng := c.Rng
 		s := csg(rng, 2, 1)
 		est := &model3d.SolidSurfaceEstimator{Solid: s}
